@@ -21,12 +21,19 @@ QUICK = 90
 THOROUGH = 1500
 
 
-def run_case(case_id: int, ops_override=None):
+def run_case(case_id: int, ops_override=None, target_override=None):
     dos = common.import_repo()
     rng = common.rng_for('C08', case_id)
-    cfg = store.default_cfg(rng, 0.5)
+    cfg = store.default_cfg(rng, 0.7)
     pool = Pool(rng, 9, 'tiny', level=cfg.level, fixed=[b''] if rng.random() < 0.5 else None)
     nh = rng.choice([2, 2, 3])
+    # 40 % of the cases follow a template that aims at the slowest read path: every handle pins a snapshot, objects are added
+    # through all handles, packed into several packs (small target) and cleaned, then every handle asks for everything at once
+    templated = ops_override is None and rng.random() < 0.4
+    if templated:
+        cfg.target = rng.choice([1, 40, 150])
+    if target_override is not None:
+        cfg.target = target_override
     scratch = common.mkscratch('C08')
     res = {'case_id': case_id, 'failures': [], 'breaks': [], 'steps': 0, 'stats': {}, 'trace': []}
     handles = []
@@ -51,10 +58,26 @@ def run_case(case_id: int, ops_override=None):
 
             def fail(sig, text):
                 res['failures'].append({'signature': sig, 'text': text,
-                                        'replay': {'kind': 'multi', 'case_id': case_id, 'seed': common.seed(), 'ops': list(res['trace'])}})
+                                        'replay': {'kind': 'multi', 'case_id': case_id, 'seed': common.seed(), 'target': cfg.target, 'ops': list(res['trace'])}})
 
             nops = rng.randint(8, 30)
             planned = ops_override
+            if templated:
+                planned = []
+                early = rng.sample(range(len(pool)), 2)
+                planned.append({'op': 'add', 'h': 0, 'c': early[0], 'via': 'bytes'})
+                for h_ in range(nh):
+                    planned.append({'op': rng.choice(['has', 'get', 'meta', 'list', 'bulk']), 'h': h_, 'k': rng.choice(early)})
+                for round_ in range(rng.choice([1, 2])):
+                    for c_ in rng.sample(range(len(pool)), rng.randint(3, len(pool))):
+                        planned.append({'op': 'add', 'h': rng.randrange(nh), 'c': c_, 'via': rng.choice(['bytes', 'stream'])})
+                    per_pack = rng.random() < 0.5
+                    planned.append({'op': 'pack', 'mode': rng.choice(['no', 'yes', 'auto', 'keep']), 'clean': per_pack})
+                    if not per_pack or rng.random() < 0.5:
+                        planned.append({'op': 'clean'})
+                for h_ in rng.sample(range(nh), nh):
+                    planned.append({'op': rng.choice(['bulk', 'bulk', 'bulk', 'list']), 'h': h_, 'k': rng.randrange(len(pool)), 'all': True})
+                    planned.append({'op': rng.choice(['has', 'get', 'meta', 'bulk']), 'h': h_, 'k': rng.randrange(len(pool))})
             for step in range(nops if planned is None else len(planned)):
                 if planned is not None:
                     op = planned[step]
@@ -126,7 +149,7 @@ def run_case(case_id: int, ops_override=None):
                             except dos.exceptions.NotExistent:
                                 found, data, real_has = 'missing', None, False
                         elif kind == 'bulk':
-                            others = [key(x) for x in rng.sample(range(len(pool)), min(3, len(pool)))]
+                            others = [key(x) for x in (range(len(pool)) if op.get('all') else rng.sample(range(len(pool)), rng.choice([min(3, len(pool)), len(pool) - 1, len(pool)])))]
                             got = hd.get_objects_content([kk] + others, skip_if_missing=False)
                             data = got.get(kk)
                             real_has = data is not None
@@ -212,7 +235,7 @@ def replay(path: str) -> int:
         return 2
     os.environ['VERIF_SEED'] = str(rp.get('seed', 0))
     common.build_lean()
-    r = run_case(rp['case_id'], ops_override=rp['ops'])
+    r = run_case(rp['case_id'], ops_override=rp['ops'], target_override=rp.get('target'))
     for f in r['failures']:
         print('FAIL', f['text'])
     for b in r['breaks']:
